@@ -56,9 +56,10 @@ static ThrRun make_run(uint64_t seed, uint64_t run) {
             for (int i = 0; i < n; ++i) {
                 int s = G.r.below(nobj);
                 if (R.scenario == 2 && is_obj(G.g[s].kind)) {
-                    if (G.g[s].life != L_INIT) G.init(s, R.cpu); else if (G.r.chance(1, 2)) G.cleanup(s); else G.free_step(s, true, 60, true);
+                    // fault: an allocation made by THIS task's init fails while the other tasks carry on (the failure must stay private to the task)
+                    if (G.g[s].life != L_INIT) G.init(s, R.cpu, G.r.chance(1, 5) ? 1 + (int)G.r.chance(1, 4) : 0); else if (G.r.chance(1, 2)) G.cleanup(s); else G.free_step(s, true, 60, true);
                 } else {
-                    if (is_obj(G.g[s].kind) && G.g[s].life != L_INIT) G.init(s, R.cpu); else G.free_step(s, true, 150, false);
+                    if (is_obj(G.g[s].kind) && G.g[s].life != L_INIT) G.init(s, R.cpu, G.r.chance(1, 12) ? 1 : 0); else G.free_step(s, true, 150, false);
                 }
             }
             R.tasks.push_back(G.p);
@@ -96,7 +97,7 @@ static void exec_op(const Plan &p, const Op &o, TaskState &ts, TaskObs &ob) {
     case OP_INIT:
         if (ts.live.size() <= (size_t)o.slot) ts.live.resize(o.slot + 1, 0);
         if (obj && ts.live[o.slot]) { ob.ret = -2; return; }
-        g_heap.begin_op(0, 0); ret = lib_init(k, obj);
+        g_heap.begin_op(0, o.failalloc); ret = lib_init(k, obj); g_heap.fail_at = 0;
         if (obj && ret) ts.live[o.slot] = 1;
         if (ret && obj) { int be = lib_backend(k, obj); uint64_t ps = is_par(k) ? lib_parallel_size(k, obj) : 0; ob.out.resize(12); memcpy(&ob.out[0], &be, 4); memcpy(&ob.out[4], &ps, 8); ob.ret = ret; return; }   // the selected back end must not depend on the interleaving
         break;
@@ -116,7 +117,8 @@ static void exec_op(const Plan &p, const Op &o, TaskState &ts, TaskObs &ob) {
 }
 
 // ----------------------------------------------------------------------------- scheduler and monitors
-struct Task { int id; ucontext_t ctx; const Plan *plan; TaskState st; bool done = false; uint64_t accesses = 0; uint32_t quantum = 0; uint8_t *stack_lo, *stack_hi; };
+struct Task { int id; ucontext_t ctx; const Plan *plan; TaskState st; bool done = false; uint64_t accesses = 0; uint32_t quantum = 0; uint8_t *stack_lo, *stack_hi;
+              int h_fail = 0, h_allocs = 0; };    // the allocation-failure fault is attached to an operation of ONE task: its counters travel with the task
 static std::vector<Task> g_tasks; static Task *g_cur = nullptr;
 static ucontext_t g_sched_ctx;
 static const size_t TSTACK = 1u << 20;
@@ -281,7 +283,9 @@ static ThrOutcome simulate(const ThrRun &R) {
         Task &k = g_tasks[pick];
         k.quantum = q; uint64_t before = k.accesses;
         g_cur = &k; ++g_switches;
+        g_heap.fail_at = k.h_fail; g_heap.allocs_in_op = k.h_allocs;
         swapcontext(&g_sched_ctx, &k.ctx);
+        k.h_fail = g_heap.fail_at; k.h_allocs = g_heap.allocs_in_op; g_heap.fail_at = 0;
         g_cur = nullptr;
         uint32_t used = (uint32_t)(k.accesses - before);
         g_segments.push_back({pick, k.done ? 0u : used});
@@ -409,12 +413,14 @@ int main(int argc, char **argv) {
     if (!runs) runs = tier == "thorough" ? 2000000 : 40000;
     if (system(("mkdir -p " + outdir).c_str())) {}
     auto t0 = std::chrono::steady_clock::now();
-    std::set<uint64_t> scheds; uint64_t W_runs = 0, W_acc = 0, W_sw = 0, W_rec = 0; std::map<std::string, uint64_t> scen;
+    std::set<uint64_t> scheds; uint64_t W_runs = 0, W_acc = 0, W_sw = 0, W_rec = 0, W_ops = 0; std::map<std::string, uint64_t> scen;
     PoolResult pr = run_pool(nw, first, runs, outdir + "/C18-" + std::to_string(getpid()),
         [&](uint64_t i, FILE *f) {
             ThrRun R = make_run(seed, i);
             ThrOutcome o = simulate(R);
             ++W_runs; W_acc += o.accesses; W_sw += o.switches; W_rec += o.recorded; scheds.insert(o.sched_hash);
+            for (auto &t : R.tasks) W_ops += t.ops.size();
+            W_ops += R.setup.ops.size();
             ++scen[strf("scenario%d.tasks%zu.sched%d.cpu%d", R.scenario, R.tasks.size(), R.sched_mode, R.cpu)];
             if (want_fp) fprintf(f, "F %llu %016llx\n", (unsigned long long)i, (unsigned long long)o.fingerprint);
             if (!o.findings.empty()) { std::string m = o.findings[0].msg; for (char &c : m) if (c == '\t' || c == '\n') c = ' '; fprintf(f, "V %llu\t%s\t%s\t%s\n", (unsigned long long)i, o.findings[0].kind.c_str(), sig_of(R, o.findings[0]).c_str(), m.c_str()); fflush(f); }
@@ -422,6 +428,8 @@ int main(int argc, char **argv) {
         },
         [&](FILE *f) {
             fprintf(f, "S runs %llu\nS accesses %llu\nS switches %llu\nS recorded %llu\nS cpu_traps %llu\nS heap_allocs %llu\n", (unsigned long long)W_runs, (unsigned long long)W_acc, (unsigned long long)W_sw, (unsigned long long)W_rec, (unsigned long long)g_cpu.n_traps, (unsigned long long)g_heap.n_alloc);
+            // every task history is executed twice (alone, then interleaved); g_call_seq counts the library calls of both
+            fprintf(f, "S ops %llu\nS lib_calls %llu\nS executions %llu\nS heap_frees %llu\nS heap_alloc_failures_injected %llu\n", (unsigned long long)W_ops, (unsigned long long)g_call_seq, (unsigned long long)(2 * W_runs), (unsigned long long)g_heap.n_free, (unsigned long long)g_heap.n_failed);
             for (uint64_t h : scheds) fprintf(f, "H %016llx\n", (unsigned long long)h);
             for (auto &kv : scen) fprintf(f, "P %s %llu\n", kv.first.c_str(), (unsigned long long)kv.second);
         });
